@@ -105,6 +105,15 @@ def build(S, v):
         return set(build(S.elem, x) for x in v) if not isinstance(v, dict) else set()
     if isinstance(S, api.TupleS):
         return tuple(build(e, x) for e, x in zip(S.elems, v))
+    if isinstance(S, api.MatchS):
+        import mesonbuild.utils.universal as _u
+        pat = eval(S.pattern_expr, vars(_u)) if not callable(S.pattern_expr) else S.pattern_expr()
+        m = getattr(pat, S.method)(v if isinstance(v, str) else '')
+        if m is None:
+            raise ReqNotMet('the model subject does not match the pattern')
+        return m
+    if isinstance(S, api.Dict):
+        return dict(v) if isinstance(v, dict) and '__term__' not in v else {}
     if isinstance(S, api.Union):
         return v
     return v
